@@ -41,6 +41,7 @@ def gen_mfnd(rng, contig=False):
             if not r.c: break
             s = rng.choice(sorted(r.c)); f = rng.randrange(0, 7)
             lines.append('assign %d %s' % (f, ' '.join(map(str, s)))); r.assign(f, s)
+        if rng.random() < 0.5: lines.append('order')      # populate the order cache on the non-monotone values: mfnd has to drop it itself
         lines += ['mfnd', 'cplx', 'order']; r.mfnd()
         if rng.random() < 0.4:
             f = rng.randrange(0, 6)
